@@ -301,7 +301,7 @@ def run_shard(ctx, args):
         try:
             one_instance(ctx, desc)
         except ValueError as e:
-            if "does not fit" in str(e) or "must be in" in str(e):
+            if wb.outside_domain(desc):
                 ctx.count("generator_rejected_by_ctor")
                 continue
             raise
